@@ -545,3 +545,218 @@ def rule_splits_append_only(db, chk, cfg, rule="SPLITS.append-only"):
     if n < 10:
         raise AnalysisBroken("SPLITS.append-only: only %d accesses to OutRec::splits recognised" % n)
     return n
+
+
+# ---------------------------------------------------------------------------
+# OUTPUT.reset: results are not appended to what the caller's container already held
+# ---------------------------------------------------------------------------
+
+class _OutState(Client):
+    """state: frozenset of output parameters that have certainly been reset on this path."""
+
+    def __init__(self, eng, f, params):
+        self.eng, self.f, self.params = eng, f, params
+        self.appended_unreset = {}          # param -> first node
+        self.reset_somewhere = set()
+
+    def join(self, a, b):
+        return a & b
+
+    def _param_of(self, e):
+        """The output parameter an expression denotes: p, *p, &p, p-> ..."""
+        e = _u(e)
+        while e.get("kind") == "UnaryOperator" and e.get("opcode") in ("*", "&"):
+            e = _u(kids(e)[0])
+        if e.get("kind") == "DeclRefExpr":
+            nm = e.get("referencedDecl", {}).get("name")
+            if nm in self.params:
+                return nm
+        return None
+
+    def _apply(self, node, st):
+        db = self.eng.db
+        for y in walk(node):
+            k = y.get("kind")
+            if k == "CXXMemberCallExpr":
+                base = db.member_base(y)
+                p = self._param_of(base) if base is not None else None
+                if p:
+                    m = db.callee(y)[0]
+                    a = db.call_args(y)
+                    if m in ("clear", "Clear") or (m == "resize" and a and canon(a[0]) == "0"):
+                        st = st | {p}
+                        self.reset_somewhere.add(p)
+                    elif m in ("emplace_back", "push_back", "insert", "AddChild", "emplace"):
+                        if p not in st:
+                            self.appended_unreset.setdefault(p, y)
+            if k in ("BinaryOperator", "CXXOperatorCallExpr"):
+                l = None
+                if k == "BinaryOperator" and y.get("opcode") == "=":
+                    l = kids(y)[0]
+                elif k == "CXXOperatorCallExpr" and len(kids(y)) == 3 and _u(kids(y)[0]).get("referencedDecl", {}).get("name") == "operator=":
+                    l = kids(y)[1]
+                if l is not None:
+                    p = self._param_of(l)
+                    # only an assignment to the object itself (not to a pointer parameter variable) resets it
+                    if p and (_u(l).get("kind") != "DeclRefExpr" or not self.params[p]):
+                        st = st | {p}
+                        self.reset_somewhere.add(p)
+            if k in ("CallExpr", "CXXMemberCallExpr"):
+                g = db.callee_func(y)
+                if g is None or g.body is None or g.id == self.f.id:
+                    continue
+                for q, a in zip(g.params, db.call_args(y)):
+                    p = self._param_of(a)
+                    if not p or not q.get("name"):
+                        continue
+                    kind = self.eng.summary(g, q.get("name"))
+                    if kind == "append":
+                        if p not in st:
+                            self.appended_unreset.setdefault(p, y)
+                    elif kind == "reset":
+                        st = st | {p}
+                        self.reset_somewhere.add(p)
+        return st
+
+    def stmt(self, node, st):
+        return self._apply(node, st)
+
+    def cond_atom(self, e, st):
+        s = self._apply(e, st)
+        e0 = _u(e)
+        # `if (p)` on a pointer output: where p is null there is no container to add to - nothing can accumulate on that branch
+        if e0.get("kind") == "DeclRefExpr" and self.params.get(e0.get("referencedDecl", {}).get("name")):
+            return s, s | {e0["referencedDecl"]["name"]}
+        c0 = canon(e0)
+        for p, is_ptr in self.params.items():
+            if is_ptr and c0 in ("(%s != nullptr)" % p, "(nullptr != %s)" % p):
+                return s, s | {p}
+            if is_ptr and c0 in ("(%s == nullptr)" % p, "(nullptr == %s)" % p):
+                return s | {p}, s
+        return s, s
+
+
+class OutputReset:
+    """summary(f, param) in {'append' (may add to the container before resetting it), 'reset' (resets it; adds only afterwards), 'none'}."""
+
+    CONTAINER = ("Paths<", "Paths64", "PathsD", "PolyPath", "PolyTree", "vector<vector")
+
+    def __init__(self, db):
+        self.db = db
+        self._memo = {}
+
+    def is_out_param(self, p):
+        t = qt(p)
+        d = dqt(p)
+        if "const" in t.split("&")[0].split("*")[0]:
+            return False
+        return (t.rstrip().endswith("&") or t.rstrip().endswith("*")) and any(c in t or c in d for c in self.CONTAINER)
+
+    def summary(self, f, pname):
+        key = (f.id, pname)
+        if key in self._memo:
+            return self._memo[key]
+        self._memo[key] = "none"           # recursion: optimistic
+        pd = [p for p in f.params if p.get("name") == pname]
+        if not pd or not self.is_out_param(pd[0]):
+            return "none"
+        is_ptr = qt(pd[0]).rstrip().endswith("*")
+        cl = _OutState(self, f, {pname: is_ptr})
+        Walker(cl).function(f.body, frozenset())
+        if pname in cl.appended_unreset:
+            r = "append"
+        elif pname in cl.reset_somewhere:
+            r = "reset"
+        else:
+            r = "none"
+        self._memo[key] = r
+        self._where = cl.appended_unreset.get(pname)
+        return r
+
+
+def rule_outputs_reset(db, chk, cfg, entries, rule="OUTPUT.reset", only=None):
+    """Every result container an operation receives by reference is emptied before the operation adds to it (directly or in the
+    function it hands the container to): what the caller's container held before the call must not appear in the result."""
+    eng = OutputReset(db)
+    n = 0
+    for f in entries:
+        for p in f.params:
+            if not eng.is_out_param(p) or not p.get("name"):
+                continue
+            if only is not None and not only(f, p):
+                continue
+            kind = eng.summary(f, p.get("name"))
+            n += 1
+            ok = kind != "append"
+            chk.instance(rule, {"function": f.qual, "sig": f.sig[:70], "output": p.get("name"), "summary": kind, "cfg": cfg}, ok=ok)
+            if not ok:
+                cl = _OutState(eng, f, {p.get("name"): qt(p).rstrip().endswith("*")})
+                Walker(cl).function(f.body, frozenset())
+                at = cl.appended_unreset.get(p.get("name"))
+                chk.violation(rule, f.qual, "%s|%s" % (f.sig[:40], p.get("name")), "%s can add to its output `%s` (at `%s`) on a path on which the container has not been "
+                              "emptied: whatever the caller's container held before the call stays in the result" % (f.qual, p.get("name"), canon(at)[:70] if at else "?"),
+                              where(at) if at else f.where, cfg=cfg)
+    return n
+
+
+# ---------------------------------------------------------------------------
+# ITER.stable: no container is grown or shrunk while a range-for / iterator loop walks it
+# ---------------------------------------------------------------------------
+
+def rule_iter_stable(db, chk, cfg, e2eng_factory, rule="ITER.stable"):
+    """A range-for (or an iterator loop) over a member container keeps iterators into it for the whole loop; if the body - through any
+    callee - can append to, erase from or reassign that container, the iterators dangle (reallocation): undefined behaviour.  Loops
+    that index the container afresh in every iteration are the safe idiom and are not concerned.  The may-modify sets come from
+    the E2 summaries (interprocedural)."""
+    GROW = ("emplace_back", "push_back", "insert", "erase", "clear", "resize", "reserve", "pop_back", "assign", "emplace", "swap")
+    n = 0
+    for cls in (["ClipperBase", "Clipper64"], ["ClipperBase", "ClipperD"], ["ClipperOffset"], ["RectClip64", "RectClipLines64"]):
+        eng = e2eng_factory(cls)
+        for f in db.funcs:
+            if f.body is None or f.is_pattern or f.cls not in cls:
+                continue
+            for lp in walk(f.body):
+                member = None
+                if lp.get("kind") == "CXXForRangeStmt":
+                    for s0 in kids(lp)[:-2]:
+                        if s0 and s0.get("kind") == "DeclStmt":
+                            for d in kids(s0):
+                                if d.get("kind") == "VarDecl" and d.get("name", "").startswith("__range"):
+                                    init = [c for c in kids(d) if isinstance(c, dict) and c.get("kind")]
+                                    e = _u(init[-1]) if init else {}
+                                    while e.get("kind") == "UnaryOperator" and e.get("opcode") == "*":
+                                        e = _u(kids(e)[0])
+                                    if e.get("kind") == "MemberExpr" and (not kids(e) or _u(kids(e)[0]).get("kind") == "CXXThisExpr") and e.get("name") in eng.fields:
+                                        member = e.get("name")
+                elif lp.get("kind") == "ForStmt":
+                    hdr = " ".join(canon(z) for z in kids(lp)[:-1] if isinstance(z, dict) and z.get("kind"))
+                    m = re.search(r"(?<![\w.>])(\w+_)\.(?:c?begin|c?end)\(\)", hdr)
+                    if m and m.group(1) in eng.fields:
+                        member = m.group(1)
+                if member is None:
+                    continue
+                body = kids(lp)[-1]
+                # direct modifications and modifications through callees
+                mods = []
+                for y in walk(body):
+                    if y.get("kind") == "CXXMemberCallExpr":
+                        base = db.member_base(y)
+                        if base is not None and canon(base) == member and db.callee(y)[0] in GROW:
+                            mods.append(y)
+                    if y.get("kind") in ("CallExpr", "CXXMemberCallExpr"):
+                        g = db.callee_func(y)
+                        if g is not None and g.body is not None and g.cls in cls + [None]:
+                            try:
+                                s = eng.summary(g, {}, {}, True)
+                            except AnalysisBroken:
+                                continue
+                            if member in s.may_def or member in s.may_dirty:
+                                mods.append(y)
+                n += 1
+                ok = not mods
+                chk.instance(rule, {"function": f.qual, "loop_over": member, "at": where(lp), "cfg": cfg}, ok=ok)
+                if not ok:
+                    chk.violation(rule, f.qual, "%s|%s" % (member, canon(mods[0])[:40]), "the loop at %s iterates over `%s` with iterators while `%s` in its body can modify "
+                                  "that container (reallocation invalidates the loop's iterators: use-after-free); index the container afresh in every "
+                                  "iteration instead" % (where(lp), member, canon(mods[0])[:60]), where(mods[0]), cfg=cfg)
+    return n
